@@ -45,7 +45,7 @@ def configs(tier):
 
     def add(**k):
         k.setdefault('group', 'step')
-        k['_cost'] = _cost(k)
+        k.setdefault('_cost', _cost(k))
         if k not in cfgs:
             cfgs.append(k)
     dmax, qmax, mmax = (3, 2, 2) if tier == 'quick' else (4, 2, 3)
@@ -67,6 +67,8 @@ def configs(tier):
         add(d=2, q=1, m=2, mode=mode, imputer='joint', storage='uniform', names='float')
         add(d=2, q=1, m=1, mode=mode, imputer='joint', storage='batch', partial_labels=True, labels=2)
         add(group='grow', d=2, q=1, mode=mode, imputer='joint', storage='batch')
+        add(d=2, q=2, m=2, mode=mode, imputer='joint', storage='batch', labels=2, varlabels=True, _cost=4000)
+        add(d=1, q=3, m=2, mode=mode, imputer='joint', storage='batch', labels=2, varlabels=True, _cost=500)
         if tier == 'thorough':
             add(d=2, q=2, m=2, mode=mode, imputer='joint', storage='batch', labels=3)
             add(d=3, q=1, m=2, mode=mode, imputer='joint', storage='batch', labels=2)
